@@ -458,28 +458,47 @@ LABEL_POOLS = [
 
 
 def stream_array_contract(ctx, drv, st, n):
-    letters = "abcdefghijklmnopqrstuvwxyz"
+    letters = "abcdefghijklmnopqrstuvwxyzABCDEFGHIJKLMNOPQRSTUVWXYZ"
     for _ in range(n):
         if ctx.time_left() < 15:
             return
-        nops = ctx.rng.choice([1, 1, 2, 2, 3, 4])
-        nlab = ctx.rng.randrange(1, 6)
-        labels = []
-        while len(labels) < nlab:
-            lab = ctx.rng.choice(LABEL_POOLS)(ctx.rng)
-            if lab not in labels:
-                labels.append(lab)
-        sizes = {i: ctx.rng.choice([1, 2, 3]) for i in range(nlab)}
-        inputs = []
-        for _ in range(nops):
-            k = ctx.rng.choice([0, 1, 2, 2, 3])
-            t = [ctx.rng.randrange(nlab) for _ in range(k)]
-            if ctx.rng.random() < 0.85:
-                t = list(dict.fromkeys(t))
-            inputs.append(t)
+        wide = ctx.rng.random() < 0.04
+        if wide:
+            # many labels (more than the 26 lower-case symbols the canonicalisation hands out first): an open chain
+            # with a few dangling legs; almost all dimensions are 1 so that the reference stays cheap
+            nops = ctx.rng.randint(24, 44)
+            nlab = nops + 1
+            labels = ctx.rng.sample(range(-200, 900), nlab + 6)
+            inputs = [[k, k + 1] for k in range(nops)]
+            extra = nlab
+            for _ in range(ctx.rng.choice([0, 1, 2, 3])):
+                inputs[ctx.rng.randrange(nops)].insert(ctx.rng.randrange(3), extra)
+                extra += 1
+            nlab = extra
+            sizes = {i: (1 if ctx.rng.random() < 0.85 else ctx.rng.choice([2, 3])) for i in range(nlab)}
+            for e in (0, nops, nops + 1, nops + 2):
+                if e < nlab:
+                    sizes[e] = ctx.rng.choice([2, 3, 4])
+            ctx.count("array_contract:wide(>26 labels)" if nlab > 26 else "array_contract:wide")
+        else:
+            nops = ctx.rng.choice([1, 1, 2, 2, 3, 4])
+            nlab = ctx.rng.randrange(1, 6)
+            labels = []
+            while len(labels) < nlab:
+                lab = ctx.rng.choice(LABEL_POOLS)(ctx.rng)
+                if lab not in labels:
+                    labels.append(lab)
+            sizes = {i: ctx.rng.choice([1, 2, 3]) for i in range(nlab)}
+            inputs = []
+            for _ in range(nops):
+                k = ctx.rng.choice([0, 1, 2, 2, 3])
+                t = [ctx.rng.randrange(nlab) for _ in range(k)]
+                if ctx.rng.random() < 0.85:
+                    t = list(dict.fromkeys(t))
+                inputs.append(t)
         flat = [i for t in inputs for i in t]
         appear = list(dict.fromkeys(flat))
-        if ctx.rng.random() < 0.5:
+        if ctx.rng.random() < (0.8 if wide else 0.5):
             output = None
             # documented: the indices that appear once, in the order they appear on the inputs
             ref_out = [i for i in appear if flat.count(i) == 1]
@@ -494,7 +513,7 @@ def stream_array_contract(ctx, drv, st, n):
                 "inputs": [[encode_label(labels[i]) for i in t] for t in inputs],
                 "output": None if output is None else [encode_label(labels[i]) for i in output], "ref_eq": ref_eq}
         ctx.case(case, nontrivial=nops >= 2 and (output is None and len(ref_out) >= 2 or nops >= 3), sample=False)
-        ctx.count("array_contract:" + ("implicit" if output is None else "explicit") + ":%d" % nops)
+        ctx.count("array_contract:" + ("implicit" if output is None else "explicit") + ":%d" % min(nops, 5))
         if ctx.rng.random() < 0.3:
             case["opts"] = draw_opts(ctx.rng)
             for k_, v_ in case["opts"].items():
@@ -606,6 +625,55 @@ def stream_ncon(ctx, drv, st, n):
                                 {"indices": indices, "real": seen, "model": resp})
 
 
+def stream_letter_rich(ctx, drv, st, n):
+    """equations that use (almost) all 52 letters, with ellipses: the symbols for the expanded `...` must then come
+    from outside the letters (numpy accepts these calls)"""
+    import string
+    alphabet = string.ascii_lowercase + string.ascii_uppercase
+    for _ in range(n):
+        if ctx.time_left() < 15:
+            return
+        L = ctx.rng.choice([46, 49, 50, 51, 52, 52])
+        used = ctx.rng.sample(alphabet, L)
+        nops = ctx.rng.choice([2, 3, 4])
+        terms = [[] for _ in range(nops)]
+        for ch in used:
+            terms[ctx.rng.randrange(nops)].append(ch)
+            if ctx.rng.random() < 0.3:
+                terms[ctx.rng.randrange(nops)].append(ch)
+        sz = {ch: (1 if ctx.rng.random() < 0.9 else 2) for ch in used}
+        ell = ctx.rng.sample(range(nops), ctx.rng.choice([1, 1, 2]))
+        ndots = ctx.rng.choice([1, 1, 2, 3])
+        eq_terms, shapes = [], []
+        for k, t in enumerate(terms):
+            t = list(dict.fromkeys(t))
+            if k in ell:
+                pos = ctx.rng.choice([0, len(t)])
+                eq_terms.append("".join(t[:pos]) + "..." + "".join(t[pos:]))
+                shapes.append([sz[c] for c in t[:pos]] + [2] * ndots + [sz[c] for c in t[pos:]])
+            else:
+                eq_terms.append("".join(t))
+                shapes.append([sz[c] for c in t])
+        eq = ",".join(eq_terms)
+        if ctx.rng.random() < 0.5:
+            flat = "".join(eq_terms).replace(".", "")
+            once = [c for c in dict.fromkeys(flat) if flat.count(c) == 1]
+            eq += "->..." + "".join(ctx.rng.sample(once, min(len(once), ctx.rng.choice([0, 1, 2]))))
+        arrays = arrays_of(st["rs"], shapes)
+        if not call(lambda: np.einsum(eq, *arrays))[0]:
+            ctx.count("letter_rich:numpy-rejects")
+            continue
+        case = {"kind": "einsum-str", "eq": eq, "shapes": shapes, "data": [[int(v) for v in x.ravel()] for x in arrays]}
+        ctx.case(case, nontrivial=True, sample=False)
+        ctx.count("letter_rich:%d-letters" % L)
+        ok, detail = run_real(case)
+        if not ok:
+            ctx.violation({"site": "einsum", "form": "letter-rich-ellipsis"}, case,
+                          f"cotengra.einsum({eq!r}, ...) vs numpy: {detail}")
+        else:
+            tie_parse(ctx, drv, st, eq, shapes)
+
+
 def stream_single(ctx, drv, st):
     """every single-operand term over <= 3 symbols of rank <= 3 with every output: fast path + value"""
     from .c11 import rgs, all_outputs
@@ -705,6 +773,7 @@ def run(ctx, drv):
     stream_einsum(ctx, drv, st, 5000 if q else 80000)
     stream_array_contract(ctx, drv, st, 1200 if q else 15000)
     stream_ncon(ctx, drv, st, 600 if q else 8000)
+    stream_letter_rich(ctx, drv, st, 150 if q else 2000)
 
 
 def search(ctx):
